@@ -532,7 +532,54 @@ func c02Impl(in []int64) []int64 {
 	for i := 0; i+3 < len(ops); i += 4 {
 		out = l.Do(ops[i], ops[i+1], ops[i+2], ops[i+3], out)
 	}
+	if kind == 0 && len(ops)%8 == 0 && !c02ValueTypesOK() {
+		out = append(out, -1000036) // see c02ValueTypesOK
+	}
 	return out
+}
+
+// The value type of the map is arbitrary (V any): values that are == but distinguishable (+0 and -0), values that cannot
+// be compared at all (slices, maps, funcs).  A fixed script on SkipList[int, float64], SkipList[int, []int] and
+// SkipListWithCmp[int, map[int]int]: Set over an existing key stores exactly the value given, nothing panics.  It is not a case
+// of the model (whose values are integers); a failure is reported as the token -1000036 at the end of a case's output.
+func c02ValueTypesOK() (ok bool) {
+	defer func() {
+		if recover() != nil {
+			ok = false
+		}
+	}()
+	negZero := math.Copysign(0, -1)
+	f := listz.NewSkipList[int, float64]()
+	f.Set(1, 0)
+	f.Set(1, negZero)
+	if v, _ := f.Get(1); !math.Signbit(v) {
+		return false
+	}
+	f.SetX(1, 0)
+	if v, _ := f.Get(1); math.Signbit(v) {
+		return false
+	}
+	f.Set(2, math.NaN())
+	f.Set(2, 5)
+	if v, _ := f.Get(2); v != 5 {
+		return false
+	}
+	sl := listz.NewSkipList[int, []int]()
+	sl.Set(1, []int{1})
+	sl.Set(1, []int{2, 3})
+	sl.SetX(1, []int{4})
+	sl.SetNx(1, []int{5})
+	if v, _ := sl.Get(1); len(v) != 1 || v[0] != 4 {
+		return false
+	}
+	var m listz.SkipListWithCmp[int, map[int]int]
+	m.Init(func(a, b int) int { return a - b })
+	m.Set(3, map[int]int{1: 1})
+	m.Set(3, map[int]int{2: 2})
+	if v, _ := m.Get(3); v[2] != 2 {
+		return false
+	}
+	return true
 }
 
 var c02Names = []string{"Init", "Set", "SetNx", "SetX", "Get", "GetNode", "NodeSetValue", "Len", "Head", "HeadNextWalk", "Remove", "Clear",
